@@ -405,6 +405,8 @@ func runC15(c *Ctx, r *Report) {
 	importRules(c, r, "C03", []string{"R-C03.2", "R-C03.3"}, "R-C15.7")
 	r.Doc("R-C15.14", "'newest first' rests on every appended entry carrying a time above its heads (adopted from C04)")
 	importRules(c, r, "C04", []string{"R-C04.2"}, "R-C15.14")
+	r.Doc("R-C15.16", "every bundled ordering orders by clock time first (adopted from C19: 'newest first' of a log configured with a bundled ordering that puts the clock id before the time lets an old entry of one writer outrank newer entries of another)")
+	importRules(c, r, "C19", []string{"R-C19.1"}, "R-C15.16")
 	r.Doc("R-C15.15", "every slice or map is allocated with a constant size or a size bounded by a collection that exists (len, cap, Len(), a minimum with one of them), through every call site of a sizing parameter: an amount that exceeds what is available must not size anything")
 	allocationsBoundedByWhatExists(c, r, "R-C15.15")
 	r.Doc("R-C15.8", "the loops that build the start set from the upper bounds process every bound")
